@@ -362,7 +362,7 @@ def scale_jobs(ctx):
         r = prefer if prefer in d else rng.choice(sorted(d))
         return r, d[r]
 
-    reps = 1 if q else 6
+    reps = 1 if q else 4
     for _ in range(reps):
         # --- uniform random graphs and ring lattices: one call per node-count regime, K in the
         # regime that this size newly admits, plus one drawn regime
